@@ -35,7 +35,7 @@ KEY_RDEP = "C13:r-dependent-iota/distributed-r/field-line-table-indexed-with-loc
 def gen_cases(tier, seed):
     rng = random.Random(131313 + seed)
     cases = []
-    for k in range(90 if tier == "quick" else 3000):
+    for k in range(90 if tier == "quick" else 12000):
         order = rng.randint(2, 6)
         deg = rng.choice([1, 2, 3, 3, 3, 4, 5])
         nr = rng.randint(2, 6)
